@@ -6,10 +6,12 @@ CONSTANTS ViewUniverse, NumTrees
 
 Salt == atoi(IOEnv.SALT)
 
+\* a spread sample rotated by the salt, plus ALWAYS the first and the last valid tree of TLC's order (boundary
+\* values: the smallest and the largest candidate indices)
 Entry(s, i) ==
-  LET vs == SetToSeq(ValidTrees(s)) IN
-  [index |-> i, spec |-> s, size |-> Size(s), trees |-> [j \in 1..Cardinality(Pick(Len(vs), NumTrees, Salt)) |->
-                                                         vs[SetToSeq(Pick(Len(vs), NumTrees, Salt))[j]]]]
+  LET vs == SetToSeq(ValidTrees(s))
+      pk == SetToSeq(Pick(Len(vs), NumTrees, Salt) \cup {1, Len(vs)})
+  IN [index |-> i, spec |-> s, size |-> Size(s), trees |-> [j \in 1..Len(pk) |-> vs[pk[j]]]]
 
 ASSUME LET specs == SetToSeq(ViewUniverse) IN
        /\ JsonSerialize(IOEnv.OUT_FILE, [i \in 1..Len(specs) |-> Entry(specs[i], i)])
